@@ -1218,7 +1218,7 @@ pub fn run(rep: &Report) {
     let all_reached: BTreeSet<&str> = points_by_victim.values().flatten().copied().collect();
     rep.extra("pause_points_never_reached", json!(ALL_POINTS.iter().filter(|p| **p != "(none)" && !all_reached.contains(*p)).collect::<Vec<_>>()));
     let (scripted_share, n_stress) = match rep.tier {
-        Tier::Quick => (1u64, 200u64),
+        Tier::Quick => (1u64, 400u64),
         Tier::Thorough => (3u64, 4_000u64),
     };
     // late-root scenarios: 2 points x 4 x 4 commit kinds x 4 states
